@@ -118,4 +118,39 @@ theorem strncat_eq (dst : Buf) (d : Nat) (src : Buf) (s n : Nat) (hd : Spec.Term
   simp [List.append_assoc]
 
 
+/-! ## memmove: overlapping source and destination inside one allocation -/
+
+theorem memmove_eq (b : Buf) (d s n : Nat) (hs : s + n ≤ b.length) (hd : d + n ≤ b.length) :
+    memmove b d s n = .ok (d, Spec.memmove b d s n) := by
+  unfold memmove Spec.memmove
+  by_cases h : s < d
+  · simp only [if_pos h, memmoveBack_spec d s (by omega) n b hd, ok_bind]
+  · simp only [if_neg h, memmoveFwd_spec n b d s (by omega) hs, ok_bind]
+
+/-! ## comparisons: sign of the first differing pair, `unsigned char` / `wchar_t` order -/
+
+theorem strcmp_eq (ct : CT) (hb : 0 < ct.bits) (a : Buf) (i : Nat) (b : Buf) (j : Nat) (ha : Spec.Terminated a i)
+    (hbt : Spec.Terminated b j) (hua : Spec.Units ct.bits a) (hub : Spec.Units ct.bits b) :
+    strcmp ct a i b j = .ok (Spec.strcmp (Spec.key ct.bits ct.signedCmp) a i b j) := by
+  unfold strcmp Spec.strcmp
+  rw [key_eq]
+  exact strcmpLoop_spec ct a b (a.drop i) (b.drop j) i j (a.length + 1) rfl rfl ha hbt (drop_length_lt a i)
+    (units_inj ct hb hua hub i j)
+
+theorem strncmp_eq (ct : CT) (hb : 0 < ct.bits) (a : Buf) (i : Nat) (b : Buf) (j n : Nat) (ha : Spec.ReadableN a i n)
+    (hbt : Spec.ReadableN b j n) (hua : Spec.Units ct.bits a) (hub : Spec.Units ct.bits b) :
+    strncmp ct a i b j n = .ok (Spec.strncmp (Spec.key ct.bits ct.signedCmp) a i b j n) := by
+  unfold strncmp Spec.strncmp
+  rw [key_eq]
+  exact strncmpLoop_spec ct a b n (a.drop i) (b.drop j) i j rfl rfl (readableN_drop ha) (readableN_drop hbt)
+    (units_inj ct hb hua hub i j)
+
+theorem memcmp_eq (ct : CT) (hb : 0 < ct.bits) (a : Buf) (i : Nat) (b : Buf) (j n : Nat) (ha : i + n ≤ a.length)
+    (hbt : j + n ≤ b.length) (hua : Spec.Units ct.bits a) (hub : Spec.Units ct.bits b) :
+    memcmp ct a i b j n = .ok (Spec.memcmp (Spec.key ct.bits ct.signedCmp) a i b j n) := by
+  unfold memcmp Spec.memcmp
+  rw [key_eq]
+  exact memcmpLoop_spec ct a b n (a.drop i) (b.drop j) i j rfl rfl (by simp; omega) (by simp; omega)
+    (units_inj ct hb hua hub i j)
+
 end Tetl.C18.Props
